@@ -130,8 +130,12 @@ func c08Filter(c *core.Ctx) {
 		}
 	}
 	// GetIngressList: stores into the result slice
-	if fn := c.Fn("controller/services", "c.GetIngressList"); fn != nil {
-		key := "controller/services.(*c).GetIngressList"
+	for _, x := range [][3]string{{"controller/services", "c.GetIngressList", "controller/services.(*c).GetIngressList"}, {"controller/legacy", "k8scache.GetIngressList", "controller/legacy.(*k8scache).GetIngressList"}} {
+		fn := c.Fn(x[0], x[1])
+		if fn == nil {
+			continue
+		}
+		key := x[2]
 		n := 0
 		for _, blk := range fn.Blocks {
 			for _, in := range blk.Instrs {
@@ -178,6 +182,28 @@ func c08Filter(c *core.Ctx) {
 				_, isPhi := ret.Results[0].(*ssa.Phi)
 				c.Check(isSlice || isPhi, key+"#cut", at(c, ret), "result is the filtered prefix / appended list", "result is returned uncut: slots of filtered-out ingresses stay in the list: "+core.Key(ret.Results[0]))
 			}
+		}
+	}
+	// legacy GetIngress: a non-nil object is returned only when IsValidIngress holds for it
+	if fn := c.Fn("controller/legacy", "k8scache.GetIngress"); fn != nil {
+		key := "controller/legacy.(*k8scache).GetIngress"
+		t := core.ExtractTable(fn)
+		b, err := t.Bind(matchers{"some": has("#0 != nil)"), "valid": has("IsValidIngress(")})
+		if t.Err != "" || err != nil {
+			c.Undecided(key, c.Pos(fn.Pos()), fmt.Sprintf("cannot extract the decision (is the object still tested with IsValidIngress before it is returned?): %s %v", t.Err, err))
+		} else {
+			n := 0
+			for _, ret := range core.Returns(fn) {
+				res := core.Results(ret)
+				if len(res) != 2 || core.IsNilConst(res[0]) {
+					continue
+				}
+				n++
+				cond, _ := t.BlockCond(ret.Block())
+				okc, diff, _ := t.Compare(cond, b, func(v map[string]bool) bool { return false }, func(v map[string]bool) bool { return v["some"] && !v["valid"] })
+				c.Check(okc, key, at(c, ret), "a non-nil object is returned only when IsValidIngress holds", "an Ingress that is not valid is returned: "+diff)
+			}
+			c.Check(n > 0, key+" returns the object", c.Pos(fn.Pos()), "", "no return of an object")
 		}
 	}
 }
